@@ -52,6 +52,7 @@ import json
 import os
 import re
 
+from checks import ext_keyfile
 from vlib import cmdrun, codefile, tlc, utilrun
 from vlib.common import CheckError, Phase, VERIF, log, subdir
 
@@ -138,6 +139,8 @@ def make_job(case):
     files = dict(ASL_FILES) if prog == "asl" else _tool_files()
     for k, lines in case["keys"].items():
         files[k] = "".join(ln + "\n" for ln in lines)
+    for k, chars in case.get("phys", {}).items():          # key files in a physical shape (spec/KeyFile*.tla): byte by byte
+        files[k] = ext_keyfile.render(chars)
     env = {}
     if case["env"]:
         env[ENVNAME[prog]] = " ".join(case["env"])
@@ -203,10 +206,13 @@ def outs_equal(expd, obsd):
 
 
 def _files_of(case, res):
-    return {"argv": case["prog"] + " " + " ".join(case["argv"][:300]),            # names read by checks/c17.py replay()
-            "env": json.dumps({ENVNAME[case["prog"]]: " ".join(case["env"])} if case["env"] else {}),
-            "keys.json": json.dumps(case["keys"]), "stdout.txt": res["out"][-3000:], "stderr.txt": res["err"][-3000:],
-            "case.json": json.dumps(_brief(case), sort_keys=True)}
+    d = {"argv": case["prog"] + " " + " ".join(case["argv"][:300]),            # names read by checks/c17.py replay()
+         "env": json.dumps({ENVNAME[case["prog"]]: " ".join(case["env"])} if case["env"] else {}),
+         "keys.json": json.dumps(case["keys"]), "stdout.txt": res["out"][-3000:], "stderr.txt": res["err"][-3000:],
+         "case.json": json.dumps(_brief(case), sort_keys=True)}
+    for k, chars in case.get("phys", {}).items():                 # a key file in a physical shape: its bytes
+        d["keyfile." + k] = ext_keyfile.render(chars)
+    return d
 
 
 def _abkey(case):
@@ -219,7 +225,9 @@ def _brief(case):
 
 def _say(case):
     e = (ENVNAME[case["prog"]] + "='" + " ".join(case["env"]) + "' ") if case["env"] else ""
-    k = "".join(" %s=[%s]" % (n, " / ".join(l.replace("\t", "<TAB>") for l in ls)) for n, ls in sorted(case["keys"].items()) if n != "kd")
+    k = "".join(" %s=[%s]" % (n, " / ".join(l.replace("\t", "<TAB>") for l in ls)) for n, ls in sorted(case["keys"].items())
+                if n != "kd" and n not in case.get("phys", {}))
+    k += "".join(" %s=[%s]" % (n, ext_keyfile.show(chars)) for n, chars in sorted(case.get("phys", {}).items()) if n != "kd")
     argv = case["argv"] if len(case["argv"]) < 20 else case["argv"][:4] + ["... (%d parameters)" % len(case["argv"])]
     return "%s%s %s%s" % (e, case["prog"], " ".join(argv), k)
 
@@ -321,7 +329,7 @@ def run(rep, bld, tier):
 
     import concurrent.futures as cf
     mcpool = cf.ThreadPoolExecutor(max_workers=2)          # the deep model checks run beside generation and replay
-    mcfuts = [mcpool.submit(mc, j) for j in mcs]
+    mcfuts = [mcpool.submit(mc, j) for j in mcs] + [mcpool.submit(ext_keyfile.model, j, fixed) for j in ext_keyfile.model_jobs(tier)]
     cases = []
 
     def gen(job):
@@ -332,17 +340,21 @@ def run(rep, bld, tier):
                                  workers=4 if prog == "asl" else 2, timeout=1500, mem="6g", tags=("TR",)), name)
         return name, r
 
-    with cf.ThreadPoolExecutor(max_workers=3 if quick else 2) as ex:          # the generator runs are independent
-        done = list(ex.map(gen, gens))
+    # extension "physical shape of key files" (checks/ext_keyfile.py, spec/KeyFile*.tla): its cases join the replay, the
+    # judgement and the klass comparison below
+    kgens = ext_keyfile.jobs(tier)
+    with cf.ThreadPoolExecutor(max_workers=4 if quick else 2) as ex:          # the generator runs are independent
+        kfuts = [ex.submit(ext_keyfile.generate, j, fixed) for j in kgens]
+        done = list(ex.map(gen, gens)) + [f.result() for f in kfuts]
     for name, r in done:
         if r.violation:
             raise CheckError("%s: the option-layer model violates its own invariant: %s" % (name, r.violation[:1200]))
         rep.model(name, r)
-        cases += [c for (_, c) in r.printed]
+        cases += [c for (_, c) in r.printed] if not name.startswith("KeyFile") else ext_keyfile.order([c for (_, c) in r.printed])
     # distinct inputs only (the thinned and the full placements overlap between generator runs)
     seen, uniq = set(), []
     for c in cases:
-        k = json.dumps([c["prog"], c["env"], c["argv"], c["keys"]], sort_keys=True)
+        k = json.dumps([c["prog"], c["env"], c["argv"], c["keys"], c.get("phys")], sort_keys=True)
         if k not in seen:
             seen.add(k)
             uniq.append(c)
@@ -402,6 +414,13 @@ def run(rep, bld, tier):
     rep.traces(len(cases))
     rep.part("ext_cmdline", cases=len(cases), reference_runs=len(refkeys), klasses_compared=groups, repaired=fixed,
              deviations_live=live, drift=st["drift"], manual_contradicted=st["defect"])
+    shaped = [c for c in cases if "phys" in c]
+    rep.part("ext_keyfile", shaped_key_files=len(shaped), decorations=len({c["shape"]["deco"] for c in shaped}),
+             unterminated_last_line=sum(1 for c in shaped if not c["shape"]["term"]),
+             undecided_by_the_manual=sum(1 for c in shaped if c["open"]))
+    for c in shaped[7:9]:
+        rep.sample({"ext": "keyfile", "prog": c["prog"], "argv": c["argv"], "env": c["env"], "shape": c["shape"],
+                    "file": ext_keyfile.show(c["phys"]["k"]), "exp": c["exp"]})
     if st["drift"] > 8:
         rep.drift("command line layer: %d more differences outside what the manual states" % (st["drift"] - 8))
     for c in cases[5:7]:
